@@ -7,6 +7,8 @@ import struct
 from engine.cfg import CFG, normalise_compare, atoms
 from engine.model import src, stmt_key, dotted, AnalysisError
 from engine.project import feasible_paths
+from engine import pat
+from rules import roles
 from engine.util import own_nodes, calls_with_nodes, where
 
 RULES = {
@@ -75,7 +77,8 @@ class Tokenizer:
 
 
 def run(model, rep, tier):
-    dg = model.func("dns.tsig._digest")
+    dg = pat.canon_func(model.func("dns.tsig._digest"), ["__first = not (ctx and multi)", "__upper_time = (time >> 32) & 65535", "__lower_time = time & 4294967295",
+                                                          "__time_encoded = struct.pack('!HIH', __upper_time, __lower_time, rdata.fudge)", "__other_len = len(rdata.other)"])
     cfg = CFG(dg.node, implicit_exc=False)
     tk = Tokenizer(dg.node)
     # `first` must be defined as not (ctx and multi)
@@ -114,9 +117,9 @@ def run(model, rep, tier):
                     f"{label}: digest input is [{' | '.join(got)}] but RFC 8945 4.3 requires [{' | '.join(want)}]; missing {missing}, unexpected {extra}"
                     + ("" if missing or extra else " (order differs)"), stmt=label)
     rep.floor("R-14.1", n_val, 4)
-    gc = model.func("dns.tsig._digest")
+    gc = dg
     rep.check("ctx = get_context(key)" in src(dg.node), "R-14.1", dg.qualname, where(dg, dg.node), "a fresh HMAC context keyed with the key for a first message", "first message does not start a fresh keyed context", stmt="fresh-ctx")
-    ms = model.func("dns.tsig._maybe_start_digest")
+    ms = pat.canon_func(model.func("dns.tsig._maybe_start_digest"), ["__ctx = get_context(key)"])
     c2 = CFG(ms.node, implicit_exc=False)
     tk2 = Tokenizer(ms.node)
     p = feasible_paths(c2, {"multi": True})
@@ -132,14 +135,14 @@ def run(model, rep, tier):
     pn = feasible_paths(c2, {"multi": False})
     rets = [src(c2.nodes[i].ast.value) for pp in pn for (i, k) in pp if isinstance(c2.nodes[i].ast, ast.Return)]
     rep.check(rets == ["None"], "R-14.1", ms.qualname, where(ms, ms.node), "no continuation context for single messages", f"single message returns {rets}", stmt="no-continuation")
-    sg = model.func("dns.tsig.sign")
+    sg = pat.canon_func(model.func("dns.tsig.sign"), ["__mac = ctx.sign()", "__tsig = rdata.replace(...)"])
     t = " ".join(src(sg.node).split())
     rep.check("ctx = _digest(wire, key, rdata, time, request_mac, ctx, multi)" in t and "mac = ctx.sign()" in t and "rdata.replace(time_signed=time, mac=mac)" in t
               and "_maybe_start_digest(key, mac, multi)" in t, "R-14.1", sg.qualname, where(sg, sg.node), "sign = _digest -> ctx.sign() -> TSIG with that MAC and time; chains on the new MAC",
               "sign() no longer (digests, signs, stores mac/time, chains the continuation on the new MAC)", stmt="sign-shape")
 
     # ---------------------------------------------------------------- R-14.2
-    va = model.func("dns.tsig.validate")
+    va = pat.canon_func(model.func("dns.tsig.validate"), ["(__adcount,) = struct.unpack('!H', wire[10:12])", "__new_wire = wire[0:10] + struct.pack('!H', __adcount) + wire[12:tsig_start]"])
     cv = CFG(va.node, implicit_exc=False)
     tkv = Tokenizer(va.node)
     nw = tkv.defs.get("new_wire", [])
@@ -173,11 +176,11 @@ def run(model, rep, tier):
                 okk = okk and any(isinstance(cv.nodes[i].ast, ast.Raise) and exc in src(cv.nodes[i].ast) for i in cv.reachable(start))
         rep.check(okk, "R-14.2", va.qualname, where(va, va.node), f"{what} check `{test_s}` precedes the MAC check and always raises",
                   f"{what} check is missing, weakened or can fall through (expected `{test_s}` -> raise before verify)", stmt=f"check {what}")
-    hv = model.func("dns.tsig.HMACTSig.verify")
+    hv = pat.canon_func(model.func("dns.tsig.HMACTSig.verify"), ["__mac = self.sign()"])
     t = " ".join(src(hv.node).split())
     rep.check("mac = self.sign()" in t and "if not hmac.compare_digest(mac, expected): raise BadSignature" in t, "R-14.2", hv.qualname, where(hv, hv.node),
               "constant-time comparison of the whole computed MAC, BadSignature otherwise", "HMAC verify is not `compare_digest(self.sign(), expected)` -> BadSignature", stmt="hmac-verify")
-    hs = model.func("dns.tsig.HMACTSig.sign")
+    hs = pat.canon_func(model.func("dns.tsig.HMACTSig.sign"), ["__digest = self.hmac_context.digest()"])
     t = " ".join(src(hs.node).split())
     rep.check("digest = self.hmac_context.digest()" in t and "digest = digest[:self.size // 8]" in t and t.endswith("return digest"), "R-14.2", hs.qualname, where(hs, hs.node),
               "MAC = HMAC digest, truncated to size/8 octets for the truncated variants", "HMAC sign/truncation changed", stmt="hmac-sign")
@@ -224,7 +227,7 @@ def run(model, rep, tier):
     rep.check(okk, "R-14.4", sp.qualname, where(sp, sp.node), "TSIG must be the last record, class ANY, in ADDITIONAL, else BadTSIG", "the TSIG position/class/section test changed", stmt="tsig-position")
     bt = model.cls("dns.message.BadTSIG")
     rep.check(model.is_subclass(bt, "dns.exception.FormError"), "R-14.4", bt.qualname, bt.file, "BadTSIG is a FormError", "BadTSIG is no longer a FormError", stmt="badtsig-base")
-    gs = model.func("dns.message._WireReader._get_section")
+    gs = pat.canon_func(model.func("dns.message._WireReader._get_section"), roles.GET_SECTION)
     t = " ".join(src(gs.node).split())
     rep.check("self.message._parse_special_rr_header( section_number, count, i, name, rdclass, rdtype )".replace("( ", "(").replace(" )", ")") in t and "for i in range(count)" in t,
               "R-14.4", gs.qualname, where(gs, gs.node), "the reader passes (section, count, position) of every TSIG/OPT to the special-header check",
@@ -233,7 +236,7 @@ def run(model, rep, tier):
     want_args = ["self.parser.wire", "key", "absolute_name", "rd", "int(time.time())", "self.message.request_mac", "rr_start", "self.message.tsig_ctx", "self.multi"]
     rep.check(len(vc) == 1 and [" ".join(src(a).split()) for a in vc[0].args] == want_args, "R-14.4", gs.qualname, where(gs, gs.node),
               "validate(wire, key, owner, rdata, now, request_mac, start of the TSIG RR, ctx, multi)", "the arguments handed to dns.tsig.validate changed", stmt="validate-args")
-    tw = model.func("dns.message.Message.to_wire")
+    tw = pat.canon_func(model.func("dns.message.Message.to_wire"), roles.MESSAGE_TO_WIRE)
     ct = CFG(tw.node, implicit_exc=False)
     sc = [(n, c) for (n, c) in calls_with_nodes(ct) if src(c.func) == "dns.tsig.sign"]
     wh = [n.id for (n, c) in calls_with_nodes(ct) if src(c.func) == "r.write_header"]
